@@ -252,6 +252,7 @@ class Loader:
             data = self.backend.get(z.path.server(servername))
             if not data:
                 # The server is configured, but never reported it's capacity.
+                self._withdraw_placement(current_server)
                 self.remove_server(servername)
                 return
 
@@ -280,8 +281,18 @@ class Loader:
                     self.restore_placement(servername, restore_identity=False)
 
         except be.ObjectNotFoundError:
+            self._withdraw_placement(current_server)
             self.remove_server(servername)
             _LOGGER.warning('Server node not found: %s', servername)
+
+    def _withdraw_placement(self, server):
+        """Withdraw the placement published for a server that was deleted.
+
+        Its placement node was deleted with it, but placement may have been
+        published after that, before the deletion was known.
+        """
+        for appname in list(server.apps):
+            self.backend.delete(z.path.placement(server.name, appname))
 
     def create_server(self, servername, data):
         """Create a new server object from server data."""
